@@ -7,6 +7,7 @@ open SteelVerif.C14
 #print axioms flatten_is
 #print axioms prefixes_concatenate_outer_first
 #print axioms visible_iff_provided
+#print axioms visible_iff_provided_graph
 #print axioms import_refers_to_provided
 #print axioms only_in_missing_is_error
 #print axioms only_in_unknown_is_error_S
